@@ -119,17 +119,37 @@ const linBig = int64(1) << 40
 func infeasible(rows []linRow, nvars int) bool {
 	// dedupe keeping the tightest constant per coefficient vector
 	dedupe := func(rs []linRow) []linRow {
-		best := map[string]int{}
-		var out []linRow
+		best := make(map[uint64][]int, len(rs))
+		out := rs[:0:0]
 		for _, r := range rs {
-			k := r.key()
-			if i, ok := best[k]; ok {
-				if r.c < out[i].c {
-					out[i].c = r.c
+			h := uint64(1469598103934665603)
+			for i, k := range r.k {
+				if k != 0 {
+					h = (h ^ uint64(i+1)) * 1099511628211
+					h = (h ^ uint64(k)) * 1099511628211
+				}
+			}
+			found := -1
+			for _, j := range best[h] {
+				same := true
+				for i, k := range r.k {
+					if out[j].k[i] != k {
+						same = false
+						break
+					}
+				}
+				if same {
+					found = j
+					break
+				}
+			}
+			if found >= 0 {
+				if r.c < out[found].c {
+					out[found].c = r.c
 				}
 				continue
 			}
-			best[k] = len(out)
+			best[h] = append(best[h], len(out))
 			out = append(out, r)
 		}
 		return out
